@@ -100,6 +100,12 @@ def bitsEq (a b : Float) : Bool := a.toBits == b.toBits
 def closeList (rtol scale : Float) (a b : List Float) : Bool :=
   a.length == b.length && (a.zip b).all (fun (x, y) => closeF rtol scale x y)
 
+/-- first index where two lists are not close, with both values -/
+def firstDiff (rtol scale : Float) (a b : List Float) : String :=
+  match ((List.range a.length).zip (a.zip b)).find? (fun (_, (x, y)) => !closeF rtol scale x y) with
+  | some (i, (x, y)) => s!"first at {i}: model={x} impl={y}"
+  | none => "lengths"
+
 def countBits (a b : List Float) : Nat :=
   ((a.zip b).filter (fun (x, y) => bitsEq x y)).length
 
